@@ -222,5 +222,5 @@ def run(tier, seed):
         V.log('note: expected variant names not seen in Debug output:', missing)
     if cov['cases_judged'] < 0.9 * len(cs) or xcov['exact_cases'] < 100:
         V.log('coverage floor not met', missing, cov['cases_judged'], len(cs), xcov['exact_cases'], cov['oracle_inconclusive'][:5])
-        return 2
+        return 1 if rc == 1 else 2  # a violation outranks a missed coverage floor
     return rc
